@@ -36,7 +36,7 @@ CLAIMED.update({
          "Points judged only inside the domain with margin 0.05 and magnitudes below 1e6; tolerance 1e-6/1e-5 over f64.",
          "property-based testing: dual-number reference oracle (f64 and exact rationals)", "DESIGN.md §4 C05"),
  "C06": ("Validity predicate 'every call returns; no panic, hang or death of the process' over all strings of <=5/6 tokens of a 14-token alphabet (exhaustive), token soup and mutated expressions up to 1000 tokens, nests up to depth 100 in child processes with the default 8 MiB stack, the saved fuzz corpus; thorough tier adds a libFuzzer campaign. Every entry point and follow-up is called. Exhaustive for short strings, exploration beyond.",
-         "Texts beyond 1000 tokens / nesting 100 are outside the property; differentiation follow-ups only for nesting <= 16 and <= 40 tokens; 30 s without return = hang.",
+         "Texts beyond 1000 tokens / nesting 100 are outside the property; differentiation follow-ups only for nesting <= 16 and <= 40 tokens; 90 s without return = hang.",
          "bounded-exhaustive enumeration + property-based testing + coverage-guided fuzzing (libFuzzer) with a totality oracle", "DESIGN.md §4 C06"),
  "C09": ("Index histories of length 0-4 on generated differentiable expressions: every library route (sequential, partial_iter, partial_nth, relaxed variants, reversed order) keeps the antiderivative's variable list and equals the derivative of that order from triply nested dual numbers (tolerance over f64, exact over rationals); an out-of-range index at any position must give Err. Exploration.",
          "partial_nth(i, 0) with i out of range is not judged; points judged in the interior of the domain only.",
